@@ -127,3 +127,8 @@ theorem C03_api_le_not_gt (base A B : Str) (hb : NoOp base) (hB : NoOp B) (he : 
 example : deweyCmp ⟨[1, 0, 0, 0, 0, -3], 0⟩ .lt ⟨[1], 0⟩ = true ∧
           deweyCmp ⟨[1], 0⟩ .le ⟨[1, 0, 0], 0⟩ = true ∧
           deweyCmp ⟨[1, 0, 0], 0⟩ .ge ⟨[1], 0⟩ = true := by decide
+
+/-- non-vacuity of `C03_api`: base `pkg`, bound `1.0nb2`, package version `1.0.0` meet its
+    hypotheses -/
+example : NoOp "pkg".toList ∧ NoOp "1.0nb2".toList ∧ "1.0nb2".toList.head? ≠ some '=' ∧ '-' ∉ "1.0.0".toList := by
+  refine ⟨⟨by decide, by decide⟩, ⟨by decide, by decide⟩, by decide, by decide⟩
